@@ -89,4 +89,94 @@ X("x_total_load", "loading returns Ok or Err on every corrupted / truncated / ho
 X("x_usable_after_load", "whatever loads can be fully used: every accessor, every image, extreme tile lookups, Debug return normally",
   ["file::*", "cel::*", "tilemap::*", "tileset::*", "layer::Layer::is_visible"], mod="x_total", label="bounded-exec", timeout=1500,
   bound="same fault family as x_total_load")
-PROPS["CX"] = {"level": "exploration", "obligations": ["x_roundtrip_structure", "x_header_extremes", "x_routes", "x_frames_vs_spec", "x_cel_order_irrelevant", "x_forest_exhaustive", "x_total_load", "x_usable_after_load"]}
+X("x_userdata_exhaustive", "every user data record is attached to the entity its chunk follows (layer, cel, slice, sprite after legacy palette, successive tags) and to nothing else; text/colour iff flagged",
+  ["parse::ParseInfo::add_user_data", "parse::ParseInfo::set_tag_user_data", "parse::ParseInfo::add_layer", "parse::ParseInfo::add_cel", "parse::ParseInfo::add_tags", "parse::ParseInfo::add_slice", "parse::parse_frame"],
+  mod="x_userdata", bound="EXHAUSTIVE over admissible chunk sequences of length <= 5 (quick) / 6 (thorough); 2000 / 20000 seeded sequences of length 7..40")
+X("x_neutral_encodings", "encoding choices the format declares equivalent never change the whole-API observation", ["parse::parse_frame", "parse::Chunk::read", "cel::parse_chunk", "reader::AseReader::unzip"],
+  mod="x_encoding", bound="60 / 600 seeded models x ~30 encodings each")
+X("x_truncation", "every strict prefix ending before the end of the last frame fails to load", ["reader::AseReader::*", "parse::read_aseprite", "parse::Chunk::read_all"],
+  mod="x_encoding", bound="every cut offset of 25 / 250 generated files and 8 / all corpus files (stride 7 beyond 4 KiB in quick)")
+X("x_readers", "the result is independent of how the reader delivers the bytes; a hard I/O error before the data is complete is returned as IoError with that kind", ["reader::AseReader::*", "file::AsepriteFile::read", "file::AsepriteFile::read_file", "error::From<io::Error>"],
+  mod="x_encoding", bound="12 / 120 seeded models x 6 reader kinds; hard error of 6 kinds at every 5th / every offset")
+X("x_refusals", "every documented-unsupported feature, switched on at every position, makes loading fail", ["parse::read_aseprite", "color_profile::parse_chunk", "tilemap::TilemapData::parse_chunk", "tileset::TilesetsById::validate", "layer::parse_chunk", "cel::CelContent::parse", "tags::parse_chunk"],
+  mod="x_encoding", bound="40 / 400 seeded models x all positions")
+X("x_palette_precedence", "new palette wins over legacy chunks in either order; legacy-only palettes decode to opaque, scaled entries at cumulative offsets", ["parse::parse_frame", "palette::parse_chunk", "palette::parse_old_chunk_04", "palette::parse_old_chunk_11"],
+  mod="x_palette", bound="60 / 600 seeded palettes x 7 chunk combinations; all 64 six-bit values; one multi-packet chunk")
+X("x_indexed_needs_palette", "an indexed sprite with pixels but no palette, or with any pixel index absent from the palette, fails to load", ["pixel::RawPixels::validate", "palette::ColorPalette::validate_indexed_pixels", "tileset::TilesetsById::validate"],
+  mod="x_palette", bound="80 / 800 seeded indexed models, one absent index per cel / tileset")
+X("x_tilemap_views", "tilemap image == tile lookups == tileset tile images; size in tiles, offsets, out-of-area lookups give tile 0; stacked tileset image", ["file::AsepriteFile::tilemap", "tilemap::Tilemap::*", "tileset::Tileset::tile_image", "tileset::Tileset::image"],
+  mod="x_tilemap", bound="300 / 3000 seeded sprites with tilemaps")
+X("x_mode_table", "dispatch table closure == blend function of that id == Aseprite reference", ["file::blend_mode_to_blend_fn", "blend::*"], mod="x_blend",
+  bound="19 modes x (194400 boundary triples + 20000 / 400000 seeded triples)")
+X("x_soft_light", "blend_soft_light == Aseprite's blend_soft_light on ALL 65536 channel pairs", ["blend::blend_soft_light"], mod="x_blend", bound="exhaustive 256 x 256")
+X("x_hsl_kernels", "HSL baselines (hue/saturation/color/luminosity incl. the saturation-sort quirk) == reference; packed channels in 0..=255", ["blend::hsl_*_baseline", "blend::luminosity", "blend::saturation", "blend::set_saturation", "blend::set_luminocity", "blend::clip_color", "blend::static_sort3_orig", "blend::from_rgb_f64"],
+  mod="x_blend", bound="2^16 x 64 (quick) / 2^24 x 512 (thorough) (source, backdrop) pairs x 4 modes", timeout=7200)
+X("x_blend_public_api", "Frame::image on two-layer sprites == Aseprite reference for every mode; result alpha == Normal alpha", ["file::AsepriteFile::frame_image", "file::write_raw_cel_to_image", "blend::*"], mod="x_blend",
+  bound="19 modes x 2000 / 60000 seeded (backdrop, source, layer opacity, cel opacity)")
+X("x_determinism", "same bytes -> same observations; repeated / reordered / 16-thread concurrent calls agree", ["file::*"], mod="x_misc", bound="40 / 400 seeded models + 10 / all small corpus files")
+X("x_utils", "extrude_border clamps; PaletteMapper.lookup / to_indexed_image as documented", ["util::extrude_border", "util::PaletteMapper::new", "util::PaletteMapper::lookup", "util::to_indexed_image"], mod="x_misc",
+  bound="all sizes 1..8^2 + 30 / 300 seeded up to 64x64; 200 / 2000 seeded palettes")
+S("s_send_sync", "AsepriteFile, Frame, Layer, Cel, Tilemap, Tileset, ColorPalette, Tag, Slice, ... are Send + Sync", ["file::AsepriteFile", "all public value types"])
+PROPS["CX"] = {"level": "exploration", "obligations": ["x_roundtrip_structure", "x_header_extremes", "x_routes", "x_frames_vs_spec", "x_cel_order_irrelevant", "x_forest_exhaustive", "x_userdata_exhaustive", "x_neutral_encodings", "x_truncation", "x_readers", "x_refusals", "x_palette_precedence", "x_indexed_needs_palette", "x_tilemap_views", "x_mode_table", "x_soft_light", "x_hsl_kernels", "x_blend_public_api", "x_determinism", "x_utils", "s_send_sync"]}
+
+# ---------------------------------------------------------------- decoders: K-full enums (proved) and K-shape (bounded-sym)
+BS = "bounded-sym"
+def shape(n): return "payload size fixed at %d bytes; every byte symbolic" % n
+K("k_parse_chunk_type", "parse", "parse_chunk_type: Ok(kind) exactly for the 14 chunk codes of the format, for all 65536 codes", ["parse::parse_chunk_type"])
+K("k_parse_pixel_format", "parse", "parse_pixel_format: Ok iff depth in {8,16,32}; transparent index verbatim", ["parse::parse_pixel_format"])
+K("k_check_chunk_bytes", "parse", "check_chunk_bytes: Ok iff 6 <= size <= bytes available, all u32 x i64; size-6 cannot underflow", ["parse::check_chunk_bytes"])
+K("k_pixel_format_accessors", "parse", "PixelFormat::bytes_per_pixel 4/2/1 and transparent_color_index", ["file::PixelFormat::bytes_per_pixel", "file::PixelFormat::transparent_color_index"])
+K("k_parse_blend_mode", "layer", "parse_blend_mode: Ok(mode numbered id) iff id <= 18, all u16", ["layer::parse_blend_mode"])
+K("k_parse_layer_type", "layer", "parse_layer_type: 0 image, 1 group, 2 tilemap(le_u32) or Err if truncated, else Err; all u16", ["layer::parse_layer_type"])
+for n in (17, 18, 21, 24):
+    K("k_layer_chunk_%d" % n, "layer", "layer::parse_chunk: Ok iff layout fits, enums in range, name UTF-8; every stored attribute equals the layout read", ["layer::parse_chunk", "reader::AseReader::*"], label=BS, bound=shape(n))
+K("k_parse_animation_direction", "tags", "parse_animation_direction: Ok iff id <= 2, all u8", ["tags::parse_animation_direction"])
+for n in (10, 30, 49):
+    K("k_tags_chunk_%d" % n, "tags", "tags::parse_chunk: one tag per declared entry, attributes as stored, in file order; Err iff short / bad direction / bad UTF-8", ["tags::parse_chunk"], label=BS, bound=shape(n))
+for n in (14, 34, 58):
+    K("k_slice_chunk_%d" % n, "slice", "slice::parse_chunk: name, keys in file order with origin/size, 9-slice iff flag 1, pivot iff flag 2", ["slice::parse_chunk", "slice::SliceKey::read", "slice::Slice9::read"], label=BS, bound=shape(n), timeout=900)
+for n in (4, 8, 12):
+    K("k_user_data_%d" % n, "user_data", "parse_userdata_chunk: text iff bit 0, colour iff bit 1, as stored", ["user_data::parse_userdata_chunk"], label=BS, bound=shape(n))
+for n in (15, 16, 20):
+    K("k_color_profile_%d" % n, "color_profile", "color_profile::parse_chunk: Ok iff >= 16 bytes, type in {none, sRGB}, fixed-gamma flag clear", ["color_profile::parse_chunk", "color_profile::parse_color_profile_type"], label=BS, bound=shape(n))
+K("k_scale_6bit", "palette", "scale_6bit_to_8bit: Err iff c >= 64 else (c<<2)|(c>>4); 0->0, 63->255, strictly monotone; all u8", ["palette::scale_6bit_to_8bit"])
+for n in (20, 26, 35):
+    K("k_palette_chunk_%d" % n, "palette", "palette::parse_chunk: one entry per index in first..=last with stored RGBA/name; Err iff last<first or short; no overflow for any first/last", ["palette::parse_chunk"], label=BS, bound=shape(n) + "; <= 4 entries", timeout=900)
+for nm, n in (("k_old04_chunk_10", 10), ("k_old04_chunk_2", 2), ("k_old11_chunk_10", 10), ("k_old11_chunk_13", 13)):
+    K(nm, "palette", "legacy palette chunk: opaque entries at cumulative skip offsets; 6-bit components scaled (0x0011); later packets overwrite", ["palette::parse_old_chunk_04" if "04" in nm else "palette::parse_old_chunk_11"], label=BS, bound=shape(n), timeout=900)
+K("k_validate_indexed", "palette", "validate_indexed_pixels: Ok iff every pixel index is a palette entry", ["palette::ColorPalette::validate_indexed_pixels", "palette::ColorPalette::color"], label=BS, bound="3 pixels, <= 3 entries at symbolic (sparse) indices", timeout=900)
+for n in (12, 27, 41):
+    K("k_ext_files_%d" % n, "external_file", "ExternalFile::parse_chunk: one entry per declared file with id and name, file order; a huge declared count does not abort", ["external_file::ExternalFile::parse_chunk"], label=BS, bound=shape(n), timeout=900)
+for n in (15, 17, 18):
+    K("k_cel_chunk_%d" % n, "cel", "cel::parse_chunk header (layer, signed x/y, opacity), linked cel frame, unknown cel types refused", ["cel::parse_chunk", "cel::CelCommon::parse", "cel::CelContent::parse"], label=BS, bound=shape(n) + "; cel type 1 or >= 4")
+K("k_cel_raw_rgba_28", "cel", "raw cel (type 0): Ok iff declared w*h*4 bytes present; header and size stored", ["cel::parse_chunk", "cel::parse_raw_cel", "cel::ImageSize::parse", "pixel::RawPixels::from_raw", "reader::AseReader::take_bytes"], label=BS, bound=shape(28), timeout=900)
+K("k_cel_raw_gray_24", "cel", "raw grayscale cel: Ok iff declared w*h*2 bytes present", ["cel::parse_chunk", "pixel::RawPixels::from_raw"], label=BS, bound=shape(24), timeout=900)
+K("k_cel_raw_indexed_23", "cel", "raw indexed cel: Ok iff declared w*h bytes present", ["cel::parse_chunk", "pixel::RawPixels::from_raw"], label=BS, bound=shape(23), timeout=900)
+K("k_pixel_count", "cel", "ImageSize::pixel_count == w*h, all u16^2", ["cel::ImageSize::pixel_count"])
+K("k_cels_table", "cel", "CelsData: add_cel Ok iff frame exists and slot free; cel() returns what was stored; frame_cels() in increasing layer index for any insertion order", ["cel::CelsData::new", "cel::CelsData::add_cel", "cel::CelsData::cel", "cel::CelsData::frame_cels"], label=BS, bound="2 frames, 2 insertions, layer index <= 3 (frame ids any u16)", timeout=900)
+K("k_gray_rgba", "pixel", "Grayscale (v,a) -> (v,v,v,a); read_rgba verbatim; short pixels are errors", ["pixel::Grayscale::new", "pixel::Grayscale::into_rgba", "pixel::read_rgba"])
+K("k_indexed_as_rgba", "pixel", "Indexed::as_rgba: None iff absent; palette colour with alpha 0 iff transparent index and not background", ["pixel::Indexed::as_rgba"], bound="one palette entry at a symbolic index (the function reads one entry)")
+for n in (8, 6, 5):
+    K("k_from_bytes_%d" % n, "pixel", "RawPixels::from_bytes: RGBA groups of 4, grayscale pairs, indexed verbatim; Err iff length not a multiple of pixel size", ["pixel::RawPixels::from_bytes"], label=BS, bound=shape(n))
+K("k_tile_parse", "tile", "Tile::parse/new: id = word & id mask, flags by mask, for all u32^5", ["tile::Tile::parse", "tile::Tile::new"])
+K("k_tilemap_bits", "tilemap", "TilemapData::parse_chunk refuses every bits-per-tile value other than 32 as unsupported", ["tilemap::TilemapData::parse_chunk"], label=BS, bound="6-byte header prefix")
+K("k_tile_bitmask_header", "tilemap", "TileBitmaskHeader::parse: four LE dwords id/xflip/yflip/rot", ["tilemap::TileBitmaskHeader::parse"])
+for n in (33, 34, 44):
+    K("k_tileset_head_%d" % n, "tileset", "Tileset::parse_chunk header: id, count, tile size (non-zero), signed base index, name, external reference iff flag 1", ["tileset::Tileset::parse_chunk", "tileset::ExternalTilesetReference::parse"], label=BS, bound=shape(n) + "; FILE_INCLUDES_TILES off", timeout=900)
+K("k_pixels_per_tile", "tileset", "TileSize::pixels_per_tile == w*h, all u16^2", ["tileset::TileSize::pixels_per_tile"])
+for n in (6, 3):
+    K("k_reader_prims_%d" % n, "reader", "byte/word/short/dword/long/read_exact at every position: LE value of the next w bytes, or IoError(UnexpectedEof) iff fewer remain", ["reader::AseReader::byte", "reader::AseReader::word", "reader::AseReader::short", "reader::AseReader::dword", "reader::AseReader::long", "reader::AseReader::read_exact", "reader::AseReader::skip_reserved"], label=BS, bound="cursor over %d symbolic bytes, every start position" % n)
+K("k_reader_sequence", "reader", "consecutive reads see consecutive bytes; end of input is an error value", ["reader::AseReader::*"], label=BS, bound="9 symbolic bytes")
+for n in (5, 2, 1):
+    K("k_reader_string_%d" % n, "reader", "string(): Ok(text) iff declared bytes present and UTF-8; InvalidInput for bad UTF-8; UnexpectedEof if short", ["reader::AseReader::string", "error::From<FromUtf8Error>"], label=BS, bound=shape(n))
+K("k_error_mapping", "error", "io::Error -> IoError carrying the same kind; source() is Some exactly for IoError", ["error::From<io::Error>", "error::AsepriteParseError::source"])
+
+DECODERS = [o for o in """k_parse_chunk_type k_parse_pixel_format k_check_chunk_bytes k_pixel_format_accessors k_parse_blend_mode k_parse_layer_type
+ k_layer_chunk_17 k_layer_chunk_18 k_layer_chunk_21 k_layer_chunk_24 k_parse_animation_direction k_tags_chunk_10 k_tags_chunk_30 k_tags_chunk_49
+ k_slice_chunk_14 k_slice_chunk_34 k_slice_chunk_58 k_user_data_4 k_user_data_8 k_user_data_12 k_color_profile_15 k_color_profile_16 k_color_profile_20
+ k_scale_6bit k_palette_chunk_20 k_palette_chunk_26 k_palette_chunk_35 k_old04_chunk_10 k_old04_chunk_2 k_old11_chunk_10 k_old11_chunk_13 k_validate_indexed
+ k_ext_files_12 k_ext_files_27 k_ext_files_41 k_cel_chunk_15 k_cel_chunk_17 k_cel_chunk_18 k_cel_raw_rgba_28 k_cel_raw_gray_24 k_cel_raw_indexed_23
+ k_pixel_count k_cels_table k_gray_rgba k_indexed_as_rgba k_from_bytes_8 k_from_bytes_6 k_from_bytes_5 k_tile_parse k_tilemap_bits k_tile_bitmask_header
+ k_tileset_head_33 k_tileset_head_34 k_tileset_head_44 k_pixels_per_tile k_reader_prims_6 k_reader_prims_3 k_reader_sequence k_reader_string_5 k_reader_string_2
+ k_reader_string_1 k_error_mapping""".split()]
+PROPS["CK"] = {"level": "proof", "obligations": DECODERS}
